@@ -8,6 +8,7 @@ import MsPack.Driver.Kwaj
 import MsPack.Driver.Oab
 import MsPack.Driver.SzddSys
 import MsPack.Driver.KwajSys
+import MsPack.Driver.OabSys
 /-
 mspack-driver: replays case files (PROTOCOL.md) on the Lean model and prints the result lines
 the C harness prints for the real library.  Ops no format module answers print `<op> unsupported`.
@@ -22,8 +23,8 @@ structure St where
   szdd   : Szdd.State := {}
   kwaj   : Kwaj.State := {}
   oab    : Oab.State := {}
-  sys    : KwajSys.State := {}     -- the effect-model world with the szdd (`sys.base`) and kwaj instances
-  sysMode : Bool := false          -- `--sys`: szdd and kwaj ops run on the effect models, nothing else is answered
+  sys    : OabSys.State := {}      -- the effect-model world with the szdd (`sys.base.base`), kwaj (`sys.base`) and oab instances
+  sysMode : Bool := false          -- `--sys`: szdd, kwaj and oab ops run on the effect models, nothing else is answered
 
 /-- run one format's handler on the op; returns whether it answered -/
 def tryFmt {σ : Type} (h : List String → HM σ Bool) (get : St → σ) (set : St → σ → St)
@@ -33,9 +34,12 @@ def tryFmt {σ : Type} (h : List String → HM σ Bool) (get : St → σ) (set :
 
 def dispatch (toks : List String) (st : St) : St × Array String :=
   if st.sysMode then
-    let k := tryFmt KwajSys.handle (·.sys) (fun s x => { s with sys := x }) toks st
+    let o := tryFmt OabSys.handle (·.sys) (fun s x => { s with sys := x }) toks st
+    if o.1 then (o.2.1, o.2.2) else
+    let k := tryFmt KwajSys.handle (·.sys.base) (fun s x => { s with sys := { s.sys with base := x } }) toks st
     if k.1 then (k.2.1, k.2.2) else
-    let t := tryFmt SzddSys.handle (·.sys.base) (fun s x => { s with sys := { s.sys with base := x } }) toks st
+    let t := tryFmt SzddSys.handle (·.sys.base.base)
+      (fun s x => { s with sys := { s.sys with base := { s.sys.base with base := x } } }) toks st
     if t.1 then (t.2.1, t.2.2) else (st, #[s!"{toks.headD "?"} unsupported"])
   else
   let try1 := tryFmt Prim.handle (·.prim) (fun s x => { s with prim := x }) toks st
@@ -53,7 +57,7 @@ def dispatch (toks : List String) (st : St) : St × Array String :=
   (st, #[s!"{toks.headD "?"} unsupported"])
 
 def addFile (st : St) (name : String) (b : Bytes) : St :=
-  { st with sys := KwajSys.addFile st.sys name b, shared := { st.shared with files := (name, b) :: st.shared.files.filter (·.1 ≠ name) } }
+  { st with sys := OabSys.addFile st.sys name b, shared := { st.shared with files := (name, b) :: st.shared.files.filter (·.1 ≠ name) } }
 
 def doLine (st : St) (toks : List String) : IO St := do
   match toks with
@@ -74,7 +78,7 @@ def doLine (st : St) (toks : List String) : IO St := do
     match parseHex hh with
     | some [b] => return { st with shared := { st.shared with fill := b } }
     | _ => IO.println "error bad-directive"; return st
-  | ["fault", kind, k] | ["fault", kind, k, _] => return { st with sys := KwajSys.addFault st.sys kind k }
+  | ["fault", kind, k] | ["fault", kind, k, _] => return { st with sys := OabSys.addFault st.sys kind k }
   | "fault" :: _ => return st
   | "trace" :: _ => return st
   | "edges" :: _ => return st
@@ -93,7 +97,7 @@ def runCase (sysMode : Bool) (path : String) : IO Unit := do
     let l := l.trimAscii.toString
     if l.isEmpty || l.startsWith "#" then continue
     st ← doLine st (l.splitOn " ")
-  IO.println (if sysMode then KwajSys.endLine st.sys else "end")
+  IO.println (if sysMode then OabSys.endLine st.sys else "end")
   (← IO.getStdout).flush
 
 def main (args : List String) : IO UInt32 := do
